@@ -22,6 +22,7 @@ import (
 	"os"
 	"path/filepath"
 	"sort"
+	"time"
 )
 
 type rng struct{ s uint64 }
@@ -117,6 +118,37 @@ func (o *out) close(dir string) {
 	os.WriteFile(filepath.Join(dir, "stats.json"), b, 0o644)
 }
 
+// runCase runs one case of a property against the implementation with a panic guard and a watchdog:
+// a panic or a hang of the code under test is an outcome (and a violation), never the end of the run.
+func runCase(prop, line string) (string, []string) {
+	type res struct {
+		impl string
+		viol []string
+	}
+	ch := make(chan res, 1)
+	go func() {
+		defer func() {
+			if r := recover(); r != nil {
+				msg := fmt.Sprint(r)
+				if len(msg) > 200 {
+					msg = msg[:200]
+				}
+				ch <- res{"crash", []string{"the implementation panicked: " + msg}}
+			}
+		}()
+		i, v := replays[prop](line)
+		ch <- res{i, v}
+	}()
+	select {
+	case r := <-ch:
+		return r.impl, r.viol
+	case <-time.After(caseTimeout):
+		return "hang", []string{fmt.Sprintf("the implementation did not finish within %v", caseTimeout)}
+	}
+}
+
+var caseTimeout = 30 * time.Second
+
 type propFn func(r *rng, tier string, o *out)
 type replayFn func(line string) (impl string, viol []string)
 
@@ -142,7 +174,8 @@ func main() {
 			fmt.Fprintln(os.Stderr, "no replay for", prop)
 			os.Exit(2)
 		}
-		impl, viol := f(*replay)
+		impl, viol := runCase(prop, *replay)
+		_ = f
 		fmt.Println("IMPL", impl)
 		for _, v := range viol {
 			fmt.Println("VIOL 0", v)
@@ -184,7 +217,8 @@ func runCorpus(prop, dir string, o *out) {
 			if line == "" || line[0] == '#' {
 				continue
 			}
-			impl, viol := rf(line)
+			impl, viol := runCase(prop, line)
+			_ = rf
 			idx := o.emit(line, impl, true)
 			o.count("corpus")
 			for _, v := range viol {
